@@ -196,10 +196,10 @@ def run(ctx):
     gen_asset.extra(ctx, out)
     # whole-pipeline models of Model.main() with program-level theorems (coq/GenMain2): single-currency programs
     # (Main.build) and programs with several currency zones, ExternalSector and gold standard (Main2.build2)
-    gen_main.extra(ctx, out, 30, 800)
-    gen_main2.extra(ctx, out, 40, 1000)
+    gen_main.extra(ctx, out, 30, 600)
+    gen_main2.extra(ctx, out, 40, 600)
     # the side conditions reduced to their semantic part, markets supplied from several other zones included (coq/GenPlumb)
-    gen_plumb.extra(ctx, out, 14, 500)
+    gen_plumb.extra(ctx, out, 14, 250)
     out.failures.extend(finding_probes())
     return out
 
